@@ -33,16 +33,19 @@ THEOREMS = [
     "SleapVerif.C14.output_spatial",
     "SleapVerif.C14.heads_independent",
     "SleapVerif.C14.up_interpolate_irrelevant",
+    "SleapVerif.C14.arch_grid_ok",
     "SleapVerif.C14.arch_grid_ok_partial",
     "SleapVerif.C14.arch_contract",
     "SleapVerif.C14.maxpool_state_irrelevant",
     "SleapVerif.C14.maxpool_state_counterexample",
     "SleapVerif.C14.call_history_irrelevant",
     "SleapVerif.C14.head_stride_eq_max_rejected",
-    "SleapVerif.C14.arch_full_counterexample_middle_block",
     "SleapVerif.C14.arch_full_counterexample_convs_per_block",
-    "SleapVerif.C14.arch_full_counterexample_wrapper_output_stride",
     "SleapVerif.C14.arch_grid_full_false",
+    "SleapVerif.C14.arch_middle_block_asIs_counterexample",
+    "SleapVerif.C14.arch_wrapper_output_stride_asIs_counterexample",
+    "SleapVerif.C14.offgrid_counterexample_raise",
+    "SleapVerif.C14.offgrid_counterexample_size",
     "SleapVerif.C14.gen_calc_same_pad_pool",
     "SleapVerif.C14.gen_same_pad_gives_ceil_half",
     "SleapVerif.C14.gen_unet_blocks_eq_model",
@@ -85,8 +88,15 @@ def doc_valid(c):
     return c["cpb"] >= 1
 
 
+def known_region(c):
+    """region excluded by `supported` because of a finding that is still `known`"""
+    return c["fam"] == "unet" and c["cpb"] < 2
+
+
 def signatures(c):
-    """structural predicates of the known findings (on the configuration)"""
+    """structural predicates of the C14 findings (on the configuration).  Only
+    `unet_convs_per_block_lt_2` is still `known`; the other two belong to `fixed` entries and
+    suppress nothing."""
     s = []
     if c["fam"] == "unet" and c["cpb"] < 2:
         s.append("unet_convs_per_block_lt_2")
@@ -199,19 +209,22 @@ def norm(s):
     return " ".join(s.split())
 
 
-FIX = {"mid": False, "wrap": False}
+# The model is always run with both fix flags ON: that is what /repo's HEAD does (24db0b1, e4cd03e) and
+# what the theorems are about.  A tree in which a fix is reverted disagrees with the model and fails
+# the oracle on the repaired region; the `fixed` entries' witnesses are replayed as regressions.
+FIX = {"mid": True, "wrap": True}
 
 
 def detect_fixes():
-    """Which of the fixes in /verif/fixes does the tree under test carry?  (The Lean model has one
-    flag per fix; the theorems are about the pinned tree = both flags off.)"""
+    """Report (evidence only) whether the tree under test still carries the two C14 fixes."""
+    det = {"mid": None, "wrap": None}
     m = call(build_real, WITNESSES["F-C14-middle-block"])
     if m[0] == "ok":
-        FIX["mid"] = (m[1].backbone.dec.x_in_shape, m[1].backbone.max_channels) == (32, 64)
+        det["mid"] = (m[1].backbone.dec.x_in_shape, m[1].backbone.max_channels) == (32, 64)
     m = call(build_real, WITNESSES["F-C14-wrapper-output-stride"])
     if m[0] == "ok":
-        FIX["wrap"] = list(m[1].backbone.dec.current_strides) == [8, 4]
-    return dict(FIX)
+        det["wrap"] = list(m[1].backbone.dec.current_strides) == [8, 4]
+    return det
 
 
 def canon_exc(r):
@@ -292,6 +305,8 @@ def oracle(c, calls, made, info, B):
         contracted shape (B, channels, H / stride, W / stride) = shape of the pipeline's targets."""
     S = real_max_stride(c)
     on_grid = all(h % S == 0 and w % S == 0 and h > 0 and w > 0 for h, w in made)
+    if not on_grid and info["status"] != "ok":
+        info["offgrid"] = info["status"]
     if info["status"] != "ok":
         if doc_valid(c) and on_grid:
             return f"valid configuration raised ({info['status']})"
@@ -303,6 +318,19 @@ def oracle(c, calls, made, info, B):
     if list(info["out"].keys()) != names:
         return f"output keys {list(info['out'].keys())} != {names}"
     if not on_grid:
+        # EXCLUDED REGION (sizes that are not multiples of the max stride; no theorem speaks here,
+        # see offgrid_counterexample_*): size-agnostic oracle only — one entry per head with the
+        # head's channel count, batch kept, finite; the size class is recorded for the evidence.
+        cls = "ok_floor"
+        for (os_, ch), name in zip(head_list(c), names):
+            sh = info["out"][name]
+            if sh[1] != ch:
+                return f"{name}: {sh[1]} channels != {ch} (off-grid input)"
+            if (sh[2], sh[3]) != (h // os_, w // os_):
+                cls = "ok_other_size"
+        info["offgrid"] = cls
+        if not info["batch_ok"] or not info["finite"]:
+            return "batch dimension changed or non-finite output (off-grid input)"
         return None
     try:
         tgt = target_shapes(c, h, w)
@@ -369,6 +397,8 @@ def run_case(chk, c, calls, B, tags, model_out=None):
     if line != m:
         chk.disagree("Model(...) construction/forward bookkeeping == Arch.construct/forward", case, line, m)
     why = oracle(c, calls, made, info, B)
+    if "offgrid" in info:
+        chk.tag("excluded_region(offgrid):" + info["offgrid"])
     if why:
         chk.fail(f"C14 fails: {why}", case, line, signatures(c))
         chk.tag("oracle_fail:" + ",".join(signatures(c) or ["UNLISTED"]))
@@ -405,7 +435,7 @@ def _worker(args):
     torch.set_num_threads(1)
     line, made, info = impl_run(c, calls, B)
     why = oracle(c, calls, made, info, B)
-    return line, made, info["status"], why
+    return line, made, info["status"] + ("|offgrid:" + info["offgrid"] if "offgrid" in info else ""), why
 
 
 # ------------------------------------------------------------------ main
@@ -517,6 +547,9 @@ def main(chk: Check):
         for (c, calls, B, tags), mo, (line, made, status, why) in zip(cases, model_outs, results):
             m = norm(mo if made == calls else run_driver("C14.lean", [model_line(c, made)])[0])
             line = norm(line)
+            status, _, og = status.partition("|offgrid:")
+            if og:
+                chk.tag("excluded_region(offgrid):" + og)
             chk.case(json.dumps(c, sort_keys=True) + str(made), {"cfg": c, "calls": made, "impl": line, "model": m},
                      tags=list(tags) + [c["fam"], "docvalid" if doc_valid(c) else "invalid", status])
             if line != m:
@@ -548,7 +581,7 @@ def main(chk: Check):
                 if c["fam"] != "unet":
                     c["stem"] = c["stem"] or 2
                     c["filters"] = 0
-                if not doc_valid(c) or signatures(c):
+                if not doc_valid(c) or known_region(c):
                     continue
                 S = real_max_stride(c)
                 line, made, info = impl_run(c, [(2 * S, S)])
@@ -565,7 +598,7 @@ def main(chk: Check):
     while det["configs"] < chk.n(10, 60) and tries < 400 and time.time() < t_budget + 20:
         tries += 1
         c = gen_cfg(rng)
-        if not doc_valid(c) or signatures(c) or cost(c) > 800:
+        if not doc_valid(c) or known_region(c) or cost(c) > 800:
             continue
         fails, d = determinism_tests(c, rng)
         det["configs"] += 1
@@ -577,6 +610,12 @@ def main(chk: Check):
             chk.fail("C14 eval-mode determinism fails: " + "; ".join(fails), {"cfg": c}, d, [])
     det["label"] = "TESTS (floating-point facts about torch kernels; not covered by a theorem), tolerance 1e-5"
     chk.extra["eval_determinism_tests"] = det
+    chk.extra["excluded_region_cases"] = {
+        "offgrid_inputs (not multiples of max stride; oracle only: keys/channels/batch/finite)":
+            {k.split(":", 1)[1]: v for k, v in chk.hist.items() if k.startswith("excluded_region(offgrid):")},
+        "unet_convs_per_block_lt_2 (known finding)": sum(v for k, v in chk.hist.items()
+                                                         if k.startswith("oracle_fail:unet_convs_per_block_lt_2")),
+    }
 
 
 def replay(chk: Check, payload):
@@ -593,7 +632,7 @@ if __name__ == "__main__":
         build_targets=["SleapVerif.Model.Proto", "SleapVerif.Model.Arch", "SleapVerif.Gen.TranslatedArch"],
         trusted=[
             "Lean 4.33 kernel; axioms ⊆ {propext, Classical.choice, Quot.sound} (audited per run)",
-            "hand-written model Arch.lean of the stride/channel/size bookkeeping; tied to /repo by exact comparison "
+            "hand-written model Arch.lean of the stride/channel/size bookkeeping, run with fixMid = fixWrap = true (= /repo HEAD); tied to /repo by exact comparison "
             "of strides, decoder filters, head in_channels, stage and output shapes and exception kinds on the explored configurations",
             "torch layer shape semantics (Conv2d same/strided, Upsample x2, ConvTranspose2d k2 s2, max_pool2d, concat, "
             "torchvision CNBlock / Swin blocks preserve shape; PatchMerging halves with ceil): modelled, validated by the correspondence",
@@ -603,7 +642,8 @@ if __name__ == "__main__":
         ],
         rule="configurations drawn from the property's grid (family x variant x filters x rate x max_stride x backbone/head "
              "strides x stem x convs_per_block x middle_block x up_interpolate x head type), 70% documented-valid stride "
-             "combinations, 30% arbitrary; inputs a*S x b*S, call histories, off-grid sizes; plus a sample (quick) / all "
+             "combinations, 30% arbitrary; inputs a*S x b*S, call histories, off-grid sizes (excluded region: "
+             "model still compared exactly, property oracle size-agnostic there); plus a sample (quick) / all "
              "(thorough) of the factored UNet table; distinct = distinct (config, call history)",
         assumptions=["in_channels = 1; kernel sizes fixed (3, stem 7/4): they do not enter the bookkeeping",
                      "a forward that raises ends a call history (pool layers would be in mixed states)"],
